@@ -194,3 +194,46 @@ func init() {
 		return iface{t, v}
 	}
 }
+
+// Type.MethodByName / Value.Method(i): the index form of a method lookup (the
+// sorted exported method set is reflect's own numbering).
+func bindMethod(fr *frame, recvRV value, sel *types.Selection) value {
+	i := fr.i
+	t := rV2T(recvRV).t
+	name := sel.Obj().Name()
+	fn := i.prog.MethodValue(sel)
+	if fn == nil {
+		panic(engineErr{"no SSA for method " + name})
+	}
+	full := sel.Type().(*types.Signature)
+	sig := types.NewSignatureType(nil, nil, nil, full.Params(), full.Results(), full.Variadic())
+	i.methodLookups = append(i.methodLookups, t.String()+"."+name)
+	return makeReflectValue(sig, &boundMethod{recv: rV2V(recvRV), fn: fn, sig: sig})
+}
+
+func init() {
+	externals["(reflect.rtype).MethodByName"] = func(fr *frame, args []value) value {
+		ms := exportedMethods(fr.i, args[0].(rtype).t)
+		mt := fr.i.namedType("reflect", "Method")
+		for k, sel := range ms {
+			name := sel.Obj().Name()
+			if fr.cond(eqValue(fr, types.Typ[types.String], args[1], name)) {
+				st := zero(mt).(structure)
+				st[0] = name
+				st[4] = int(k)
+				return tuple{st, true}
+			}
+		}
+		return tuple{zero(mt), false}
+	}
+	externals["(reflect.Value).Method"] = func(fr *frame, args []value) value {
+		ms := exportedMethods(fr.i, rV2T(args[0]).t)
+		for k, sel := range ms {
+			if fr.cond(eqValue(fr, types.Typ[types.Int], args[1], int(k))) {
+				return bindMethod(fr, args[0], sel)
+			}
+		}
+		stringPanic(fr, "reflect: Method index out of range")
+		return nil
+	}
+}
